@@ -218,6 +218,8 @@ structure St where
   live : Nat := 2              -- live handles
   sused : Nat → Bool := fun s => s == 0   -- stream ids handed out
   est : Nat → Bool := fun s => s == 0     -- streams that have been published in a reader group
+  sl : List Nat := [0]                    -- ghost: sender handles counted in `writers`
+  cl : Nat → List Nat := fun s => if s = 0 then [1] else []   -- ghost: receiver handles counted in `num_consumers`
 
 inductive Label where
   | call (t : Nat) (o : Outer) (g v ng ns : Nat)
@@ -646,9 +648,9 @@ def stepRun (σ0 : St) (t : Nat) (inp : Nat) : Obs × St :=
   ---------------------------------------------------------------- handle management
   | .cs1 =>
       (mkObs σ0 t .fadd .writers .sc (a := 1) (res := σ0.writers),
-       ({ σ with writers := σ0.writers + 1, live := σ0.live + 1 }).goto t (.ret .new))
+       ({ σ with writers := σ0.writers + 1, live := σ0.live + 1, sl := σ0.sl ++ [x.ng] }).goto t (.ret .new))
   | .ds1 =>
-      let σ1 := { σ with writers := σ0.writers - 1 }
+      let σ1 := { σ with writers := σ0.writers - 1, sl := σ0.sl.erase g }
       let o := mkObs σ0 t .fsub .writers .sc (a := 1) (res := σ0.writers)
       -- fence, remove_token (manager), then waiter.notify()
       match σ0.wait with
@@ -657,7 +659,7 @@ def stepRun (σ0 : St) (t : Nat) (inp : Nat) : Obs × St :=
       | _ => (o, (teardownStart σ1 t .dropped).setTh t fun y => { y with ff := y.ff ++ [.sc] })
   | .cr1 =>
       (mkObs σ0 t .fadd (.ncons s) .sc (a := 1) (res := σ0.ncons s),
-       (({ σ with ncons := upd σ0.ncons s (σ0.ncons s + 1), live := if x.outer = Outer.intoSingleFut then σ0.live else σ0.live + 1 }).setHd g fun y => { y with uni := false }).goto t
+       (({ σ with ncons := upd σ0.ncons s (σ0.ncons s + 1), cl := upd σ0.cl s (σ0.cl s ++ [x.ng]), live := if x.outer = Outer.intoSingleFut then σ0.live else σ0.live + 1 }).setHd g fun y => { y with uni := false }).goto t
          (if x.outer = Outer.intoSingleFut then PC.dr1 else PC.ret .new))
   | .un1 =>
       -- [F9] the boolean comes from this load, not from the decrement
@@ -665,7 +667,8 @@ def stepRun (σ0 : St) (t : Nat) (inp : Nat) : Obs × St :=
        (σ.setTh t fun y => { y with aux := if σ0.ncons s = 1 then 1 else 0 }).goto t .dr1)
   | .dr1 =>
       let o := mkObs σ0 t .fsub (.ncons s) .sc (a := 1) (res := σ0.ncons s)
-      let σ1 := { σ with ncons := upd σ0.ncons s (σ0.ncons s - 1) }
+      let σ1 := { σ with ncons := upd σ0.ncons s (σ0.ncons s - 1),
+                         cl := upd σ0.cl s ((σ0.cl s).erase (if x.outer = Outer.intoSingleFut then x.ng else g)) }
       if σ0.ncons s = 1 then (o, σ1.goto t .rr1) else (o, recvDropEnd σ1 t x [.sc])
   | .rr1 =>
       -- the replacement group is allocated right after this load
@@ -702,6 +705,7 @@ def stepRun (σ0 : St) (t : Nat) (inp : Nat) : Obs × St :=
       if okk then
         let σ2 := { σ1 with cur := ng, pos := upd σ0.pos x.ns raw, ncons := upd σ0.ncons x.ns 1,
                             start := upd σ0.start x.ns raw, dlv := upd σ0.dlv x.ns [], est := upd σ0.est x.ns true,
+                            cl := upd σ0.cl x.ns [if x.outer = Outer.intoMultiFut then g else x.ng],
                             live := (if x.outer = Outer.intoMultiFut then σ0.live else σ0.live + 1), taintAdd := σ0.taintAdd || (σ0.pos s != raw) }
         if x.outer = Outer.intoMultiFut then (o, σ2.gotoF t .dr1 [.sc]) else (o, σ2.gotoF t (.ret .new) [.sc])
       else (o, σ1.gotoF t (.a2 σ0.cur) [.acq])
@@ -751,11 +755,24 @@ where
 /-- does the call need a fresh stream id -/
 def needStream (o : Outer) : Bool := o = Outer.addStream || o = Outer.intoMultiFut
 
+/-- which calls a handle of a given kind offers -/
+def kindOk (o : Outer) (h : Hd) : Bool :=
+  match o with
+  | .trySend | .startSend _ _ => h.sender
+  | .tryRecv | .recv | .poll false => !h.sender
+  | .tryRecvView | .recvView | .futTryRecvView | .futRecvView | .poll true => !h.sender && h.view
+  | .clone => h.sender || !h.view
+  | .addStream => !h.sender
+  | .drop | .unsub => true
+  | .intoSingle | .intoSingleFut => !h.sender && !h.view
+  | .intoMulti | .intoMultiFut => !h.sender && h.view
+  | .none => false
+
 /-- a call needs a live handle nobody else is using (Rust ownership) and fresh ids for what it creates -/
 def callOk (σ : St) (t : Nat) (o : Outer) (g ng ns : Nat) : Bool :=
   let h_ := σ.hs g
-  decide ((σ.th t).pc = .idle) && h_.alive && !h_.busy &&
-  !((o = Outer.clone || o = Outer.addStream) && ((σ.hs ng).used || ng = g)) &&
+  decide ((σ.th t).pc = .idle) && h_.alive && !h_.busy && kindOk o h_ &&
+  !((o = Outer.clone || o = Outer.addStream || o = Outer.intoSingleFut) && ((σ.hs ng).used || ng = g)) &&
   !(needStream o && σ.sused ns)
 
 /-- reserve the stream id, mark the handle busy, record the call's arguments in the thread -/
@@ -791,7 +808,7 @@ def callEntry (σ1 : St) (t : Nat) (o : Outer) (g ng ns : Nat) : St :=
       | .unsub => if h_.sender then (σ1.setHd g fun y => { y with alive := false }).goto t .ds1
                   else (σ1.setHd g fun y => { y with alive := false }).goto t .un1
       | .intoSingle => σ1.goto t .isg
-      | .intoSingleFut => σ1.goto t .cr1
+      | .intoSingleFut => (σ1.setHd ng fun y => { y with used := true }).goto t .cr1
       | .intoMultiFut => σ1.goto t .a1
       | .intoMulti => σ1.goto t (.ret .multi)
       | .none => σ
